@@ -528,7 +528,9 @@ func (r *resolver) resolveRefs(rs *Resolved) error {
 			info.resolvedRef = refSchema
 		}
 		// Draft-07 does not know $dynamicRef: it is an unknown keyword there and is not followed.
-		if s.DynamicRef != "" && rs.draft != draft7 {
+		// (Validate goes by the root document's draft throughout, so Resolve does as well,
+		// also in a loaded document that declares another draft.)
+		if s.DynamicRef != "" && r.rootDraft != draft7 {
 			refSchema, frag, err := r.resolveRef(rs, s, s.DynamicRef)
 			if err != nil {
 				return err
